@@ -288,6 +288,15 @@ class IntrospectablePass(object):
         if isinstance(obj, (ast.Class, ast.Interface)):
             for sig in obj.signals:
                 self._introspectable_callable_analysis(sig, [obj])
+            # A virtual method cannot name an invoker that is left out of the
+            # typelib: the compiler aborts on the dangling reference
+            for vfunc in obj.virtual_methods:
+                if vfunc.invoker is None:
+                    continue
+                for method in obj.methods:
+                    if method.name == vfunc.invoker and (method.skip or not method.introspectable):
+                        vfunc.invoker = None
+                        break
         return True
 
     def _remove_non_reachable_backcompat_copies(self, obj, stack):
